@@ -28,6 +28,7 @@ ALPHABETS = [
 ]
 EDGES = (np.pi / 12, np.pi / 4, np.pi / 2)
 STEP = 1.5 * np.pi
+_prev = {}
 
 
 def bounds(tier):
@@ -50,6 +51,9 @@ def cases(tier, seed):
     for name, _ in long_phases(seed):
         for ei in range(3):
             yield (('LONG', name), ei, seed, 0, 0)
+    # larger scope: cycles of hundreds of samples with masked blocks of 255 / 256 / 257 / 512 samples and scattered masks
+    for ei in range(3):
+        yield (('BLOCKS', 0), ei, seed, 0, 0)
     for n in range(2, b['templates'] + 1):
         for combo in itertools.product(range(len(TEMPLATES)), repeat=n):
             s = tuple(v for t in combo for v in TEMPLATES[t])
@@ -104,9 +108,29 @@ def check_case(case):
     s, ei, seed, allupto, contupto = case
     al = ALPHABETS[seed % len(ALPHABETS)]
     edge = EDGES[ei]
+    blocks = None
     if len(s) == 2 and s[0] == 'LONG':
         from .c12 import long_phases
         phase = dict(long_phases(seed))[s[1]]
+    elif len(s) == 2 and s[0] == 'BLOCKS':
+        lens = [40, 600, 1000, 300, 700, 50]
+        phase = np.concatenate([(np.arange(n_) + 0.37) / n_ * 2 * np.pi for n_ in lens])
+        starts = np.cumsum([0] + lens[:-1])
+        blocks = []
+        for c_, n_ in enumerate(lens):
+            for ln in (1, 255, 256, 257, 512):
+                if ln <= n_:
+                    m_ = np.ones(len(phase), dtype=bool)
+                    m_[starts[c_] + 3:starts[c_] + 3 + ln] = False
+                    blocks.append(m_)
+            if n_ >= 600:
+                m_ = np.ones(len(phase), dtype=bool)
+                m_[starts[c_] + np.arange(256) * 2] = False       # 256 scattered samples
+                blocks.append(m_)
+        m_ = np.ones(len(phase), dtype=bool)
+        m_[starts[3]:starts[3] + 256] = False
+        m_[starts[3] + 256:starts[4]] = True
+        blocks.append(m_)
     else:
         phase = np.array([al[i] for i in s])
     n = len(phase)
@@ -130,7 +154,7 @@ def check_case(case):
         trans += 1
         if r != g or bool(np.all(chk)) != g:
             viols.append(('is_good', '%s: is_good(%s)=%r checks=%s expected %r' % (desc, phase[a:b].tolist(), r, chk.tolist(), g)))
-    for mask in masks_for(n, allupto):
+    for mask in (masks_for(n, allupto) if blocks is None else [None] + blocks):
         for rg in (True, False):
             if mask is None and not rg:
                 continue
@@ -171,6 +195,23 @@ def check_case(case):
             want = np.array(good, dtype=int)
             if flag.shape != want.shape or not np.array_equal(flag.astype(int), want):
                 viols.append(('container-flag' + (':column-input' if col else ''), '%s use_cache=%s column=%s: metrics[is_good]=%s expected %s' % (desc, cache, col, flag.tolist(), want.tolist())))
+    # state shared between container instances: the container of the previous case must still hold ITS flags
+    prev = _prev.get('c')
+    if prev is not None:
+        pc, pwant, pdesc = prev
+        try:
+            pflag = np.asarray(pc.metrics['is_good']).astype(int)
+            if pflag.shape != pwant.shape or not np.array_equal(pflag, pwant):
+                viols.append(('container-flag:changed-by-later-instance', '%s: after building another container its is_good became %s (was %s)' % (
+                    pdesc, pflag.tolist()[:12], pwant.tolist()[:12])))
+        except Exception as e:
+            viols.append(('container-flag:changed-by-later-instance', '%s: reading its metrics raised %r' % (pdesc, e)))
+    if segs and n <= max(contupto, 16):
+        try:
+            keep = Cycles(phase.copy(), phase_step=STEP, phase_edge=edge)
+            _prev['c'] = (keep, np.array(good, dtype=int), desc)
+        except Exception:
+            _prev.pop('c', None)
     if not segs:
         cls = 'nowrap'
     elif any(good) and not all(good):
@@ -184,7 +225,7 @@ def check_case(case):
 
 def snippet(case, kind):
     s, ei, seed = case[:3]
-    if len(s) == 2 and s[0] == 'LONG':
+    if len(s) == 2 and s[0] in ('LONG', 'BLOCKS'):
         return None
     al = ALPHABETS[seed % len(ALPHABETS)]
     return ('import numpy as np, emd\n'
